@@ -12,7 +12,7 @@ from vmc.oracles import aff, picture
 
 WRAPPERS = ["Transform", "Translate", "Scale", "ScaleAroundCenter", "ScaleUniform", "ScaleUniformAroundCenter",
             "Rotate", "RotateAroundCenter", "Skew", "SkewAroundCenter"]
-FILLS = ["solid", "solidA", "fg", "fgA", "linfg", "lin", "linrep", "linrefl", "rad", "radrep", "radrefl"]
+FILLS = ["solid", "solidA", "fg", "fgA", "linfg", "lin", "linrep", "linrefl", "rad", "radrep", "radrefl", "radring"]
 STRUCTURES = ["two_layers", "single", "nested", "colrglyph", "group", "composite_outline", "colrglyph_outer", "layers_outer", "group_outer", "two_glyphs"]
 UNSUPPORTED = ["sweep", "composite_multiply", "composite_gradient_backdrop"]
 FG = (0.0, 0.0, 0.0, 1.0)
@@ -47,7 +47,9 @@ def fill(name):
                        "x0": 150, "y0": 150, "x1": 450, "y1": 300, "x2": 100, "y2": 400}
     rad = lambda ext: {"Format": PF.PaintRadialGradient, "ColorLine": {"ColorStop": [(0, 3), (1, 2)], "Extend": ext},
                        "x0": 250, "y0": 300, "r0": 30, "x1": 300, "y1": 350, "r1": 300}
-    return {"solid": lambda: solid(0), "solidA": lambda: solid(1, 0.5), "fg": lambda: solid(0xFFFF),
+    ring = {"Format": PF.PaintRadialGradient, "ColorLine": {"ColorStop": [(0, 3), (1, 2)], "Extend": "pad"},
+            "x0": 300, "y0": 330, "r0": 120, "x1": 300, "y1": 330, "r1": 300}  # concentric circles, the ramp starts at r0 > 0
+    return {"radring": lambda: ring, "solid": lambda: solid(0), "solidA": lambda: solid(1, 0.5), "fg": lambda: solid(0xFFFF),
             "fgA": lambda: solid(0xFFFF, 0.5),
             "linfg": lambda: dict(lin("pad"), ColorLine={"ColorStop": [{"StopOffset": 0, "PaletteIndex": 0xFFFF, "Alpha": 0.25},
                                                                        {"StopOffset": 1, "PaletteIndex": 1, "Alpha": 1.0}], "Extend": "pad"}),
